@@ -76,6 +76,15 @@ def run(tier):
                 break
         if fin['nvalid'] != 86401:
             chk.violation('triples:count', '%d byte triples are accepted as valid, expected 86401' % fin['nvalid'], {})
+    # 3b. the day conversions in non-ascending orders (the answer may not depend on the call before)
+    rc, out, err, _ = common.run_cmd([exe, 'dayorder'], timeout=900)
+    recs = [json.loads(l) for l in out.splitlines() if l.startswith('{')]
+    if rc != 0 or not recs or 'done' not in recs[-1]:
+        chk.violation('dayorder:crash', 'non-monotone day sweep crashed: %s' % err[-500:], {})
+    else:
+        for b in recs[:-1]:
+            chk.violation('dayorder:conversion', 'day %s converted after another day: %s' % (b.get('d'), b), b)
+        chk.add(days_converted_out_of_order=recs[-1]['n'])
     # 4. all instants: day table x second-of-day composition
     stride = 16 if tier == 'quick' else 1
     n = common.NCPU * 4
